@@ -286,7 +286,14 @@ fn gen_lang(a: &HashMap<String, String>) {
                 res.push(json!({"limit": [0, (limit >> 16) as u32, (limit & 0xffff) as u32], "out": if ok.is_ok() && nested.is_ok() { "ok" } else { "panic" },
                                 "ok": ok.unwrap_or(false), "nested": nested.unwrap_or(false)}));
             }
-            json!({"ev": "relimit", "id": k, "pat": pat, "tok": tok, "res": res})
+            // history independence: after the pattern was compiled under the default limit, the smallest limit
+            // must still give the verdict it gave first
+            let again = {
+                let mut p = wirefilter::FilterParser::new(&w.schemes[si]);
+                p.regex_set_compiled_size_limit(1);
+                std::panic::catch_unwind(std::panic::AssertUnwindSafe(|| p.parse(&format!("s matches {txt}")).is_ok())).unwrap_or(true)
+            };
+            json!({"ev": "relimit", "id": k, "pat": pat, "tok": tok, "res": res, "again": again})
         } else if family == "c07" {
             // alias / layout variants of one token sequence, and a structurally different partner
             let mut vars = Vec::new();
